@@ -253,6 +253,8 @@ def eval_combo(ctx, case, lat, kind, metric, pairs, rng, label, maxits=None):
     o = run_driver(ctx.exe["c11"], [" ".join(toks)])[0]
     if "error" in o:
         raise RuntimeError(f"c11 driver: {' '.join(o['error'])}")
+    if getattr(ctx, "xc11", None) is not None and n <= XCHECK_MAX_N and maxits <= XCHECK_MAX_FUEL:
+        ctx.xc11["path"].append((n, adj, hval, S, queries, maxits, o))
     # independent optimum
     w = lambda x, y: own_metric(metric, posn[x], posn[y])
     dist_from = {}
@@ -329,6 +331,8 @@ def eval_combo(ctx, case, lat, kind, metric, pairs, rng, label, maxits=None):
         if "error" in oc:
             raise RuntimeError(f"c11 driver chk: {' '.join(oc['error'])}")
         oks = oc["ok"][1:]
+        if getattr(ctx, "xc11", None) is not None and n <= XCHECK_MAX_N and len(tab) <= XCHECK_MAX_FUEL:
+            ctx.xc11["chk"].append((tab, chk_items, oks))
         for (s, g, nodes, edges, wasbad), ok in zip(chk_items, oks):
             if ok == "0" and not wasbad:
                 # the proved checker rejects a chain the Python restatement accepted
@@ -406,6 +410,8 @@ def eval_metrics(ctx, pts, label):
     o = run_driver(ctx.exe["c11"], [" ".join(toks)])[0]
     if "error" in o:
         raise RuntimeError(f"c11 driver metric: {' '.join(o['error'])}")
+    if getattr(ctx, "xc11", None) is not None:
+        ctx.xc11["metric"] = (S, pts, o)
     ce, cp = Cursor(o["eu"]), Cursor(o["pe"])
     eu = ce.list(lambda: Fraction(ce.z(), ce.z()))
     pe = cp.list(lambda: Fraction(cp.z(), cp.z()))
@@ -443,6 +449,82 @@ def eval_metrics(ctx, pts, label):
             ctx.k_mismatch(f"{label}: model periodic_sq is not the minimum-image distance at {a.tolist()},{b.tolist()}", rcase)
 
 
+# ------------------------------------------------------------------ extraction cross-check (DESIGN 1.3)
+XCHECK_MAX_N, XCHECK_MAX_FUEL = 40, 200      # nodes of the searched graph; maxits (the model's fuel, a nat literal) / table rows
+
+
+def coq_crosscheck(ctx):
+    """A small random sample of the c11 driver's answers collected in ctx.xc11 during the K phase (graphs with <= 40 nodes) is
+    re-derived INSIDE Coq by vm_compute on the same literals: as_path + as_chain_cost on the implementation's adjacency lists and
+    exact heuristic values (a few queries per sampled graph), as_valid_path (as_joined table) on the implementation's chains,
+    mt_euclid_sq / mt_periodic_sq (numerator and denominator exactly as the extracted code leaves them) on point pairs."""
+    import xcheck as X
+    xc, ctx.xc11 = ctx.xc11, None
+    quick = ctx.tier == "quick"
+    rng = np.random.default_rng([ctx.seed, 11, 99])
+
+    def pick(xs, k):
+        return [xs[i] for i in sorted(rng.choice(len(xs), size=min(len(xs), k), replace=False).tolist())] if len(xs) else []
+    nl = X.natlist
+    oz = X.option(X.z)
+    body = [
+        # the driver's heuristic: a table lookup (it fails on a missing key; an answer exists only if no key was missing)
+        "Definition xh (tbl : list ((nat * nat) * Z)) (a b : nat) : Z :=",
+        "  match find (fun r => (fst (fst r) =? a)%nat && (snd (fst r) =? b)%nat) tbl with Some r => snd r | None => 0 end.",
+        "Definition xadj (rows : list (list (nat * nat))) (a : nat) : list (nat * nat) := nth a rows [].",
+        "Definition qpair (q : Q) : Z * Z := (Qnum q, Zpos (Qden q)).",
+    ]
+    g = lambda lhs, rhs: body.append(X.goal(lhs, rhs))
+    nq = 0
+    for gi, (n, adj, hval, S, queries, maxits, o) in enumerate(pick(xc["path"], 6 if quick else 50)):
+        body.append(f"Definition A{gi} := xadj {X.lst(lambda row: X.lst(X.natpair, row), adj)}.")
+        body.append(f"Definition H{gi} := xh " + X.lst(lambda kv: f"(({X.nat(kv[0][0])}, {X.nat(kv[0][1])}), {X.z(int(Fraction(kv[1]) * S))})", list(hval.items())) + ".")
+        # queries: prefer start != goal, both stopping modes
+        qs = [qi for qi, (s_, g_, _) in enumerate(queries) if s_ != g_]
+        for qi in pick(qs, 5) + pick([qi for qi in range(len(queries)) if qi not in qs], 1):
+            s_, g_, early = queries[qi]
+            m = o[f"q{qi}"]
+            call = f"as_path A{gi} H{gi} {X.nat(s_)} {X.nat(g_)} {X.boolean(early)} {X.nat(maxits)}"
+            mg = lambda t: oz(None if t == "N" else unhx(t))
+            if m[0] == "P":
+                c = Cursor(m[2:])
+                ns, es = c.list(c.int), c.list(c.int)
+                cost = c.z()
+                g(call, f"AS_Path {nl(ns)} {nl(es)} {mg(m[1])}")
+                g(f"as_chain_cost H{gi} {nl(ns)}", X.z(cost))
+            elif m[0] == "E":
+                g(call, f"AS_PathFindingError {mg(m[1])}")
+            else:
+                g(call, "AS_Crash")
+            nq += 1
+    nchk = 0
+    for tab, items, oks in pick(xc["chk"], 4 if quick else 30):
+        T = X.lst(X.pair(X.onat, X.onat), [(None if x == INVALID else int(x), None if y == INVALID else int(y)) for x, y in tab])
+        sel = pick(list(range(len(items))), 6)
+        g("map (fun q => as_valid_path (as_joined " + T + ") (fst (fst q)) (snd (fst q)) (fst (snd q)) (snd (snd q))) "
+          + X.lst(lambda i: f"(({X.nat(items[i][0])}, {X.nat(items[i][1])}), ({nl(items[i][2])}, {nl(items[i][3])}))", sel),
+          X.lst(lambda i: X.boolean(oks[i] == "1"), sel))
+        nchk += len(sel)
+    npts = 0
+    if xc["metric"] is not None:
+        S, pts, o = xc["metric"]
+        ce, cp = Cursor(o["eu"]), Cursor(o["pe"])
+        eu = ce.list(lambda: (ce.z(), ce.z()))      # numerator, denominator as printed (not normalised)
+        pe = cp.list(lambda: (cp.z(), cp.z()))
+        sel = pick(list(range(len(pts))), 24 if quick else 240)
+        q = lambda v: f"(Qmake {X.z(int(Fraction(float(v)) * S))} ({int(S)})%positive)"
+        P = X.lst(lambda i: f"(({q(pts[i][0][0])}, {q(pts[i][0][1])}), ({q(pts[i][1][0])}, {q(pts[i][1][1])}))", sel)
+        body.append(f"Definition PTS : list (mt_pt * mt_pt) := {P}.")
+        g("map (fun ab => qpair (mt_euclid_sq (fst ab) (snd ab))) PTS", X.lst(lambda i: X.zpair(eu[i]), sel))
+        g("map (fun ab => qpair (mt_periodic_sq (fst ab) (snd ab))) PTS", X.lst(lambda i: X.zpair(pe[i]), sel))
+        npts = len(sel)
+    res = ctx.res
+    res.extra["extraction_crosscheck_goals_vm_compute"] = X.compile_goals("c11", "Model.AStar Model.Metric", body, "c11", stdlib="List ZArith Bool QArith")
+    res.extra["extraction_crosscheck_cases"] = {"path_queries": nq, "checked_chains": nchk, "metric_point_pairs": npts,
+                                                "pool_graphs": len(xc["path"]), "pool_chain_batches": len(xc["chk"])}
+    res.extra["extraction_crosscheck_wall_s"] = X.LAST_WALL
+
+
 # ------------------------------------------------------------------ entry points
 def run(ctx):
     ctx.res.rule = ("lattices: tilings, periodic Voronoi (9..120 seeds quick / ..400 thorough, 4 point styles, both shift settings), their x/y/xy cuts, small example graphs; "
@@ -450,8 +532,10 @@ def run(ctx):
                     "when the graph has <= 16 (quick) / 40 (thorough) nodes, random pairs + start==goal otherwise, maxits = n_edges; metrics: 600/6000 exact dyadic point pairs in [0,1)^2 "
                     "incl. grid points, coincident and boundary-hugging pairs; non-trivial = start != goal (resp. distinct points)")
     quick = ctx.tier == "quick"
+    ctx.xc11 = {"path": [], "chk": [], "metric": None}      # driver answers on small graphs, for the extraction cross-check
     eval_metrics(ctx, metric_points(ctx.tier, ctx.seed), "K(metric)")
     evaluate(ctx, c11_cases(ctx.tier, ctx.seed), "K(astar)", 16 if quick else 40, 24 if quick else 100)
+    coq_crosscheck(ctx)      # extraction cross-check: a sample of the driver's answers re-derived inside Coq
 
 
 def search(ctx):
